@@ -580,17 +580,6 @@ func c13prop(ev *evid.Rec, forceWrap bool) func(rt *rapid.T) {
 					rec("idle %s", d)
 					settle(d)
 					s.invariant("while users are away")
-					// known finding C13/away-clear-reorder (decided by TestC13AwayReorder): the first request of an away user
-					// clears the flag with a change notice of its own; if that request also produces a change notice the two
-					// can overtake each other.  Excluded by construction: every user first wakes up with a request that
-					// notifies nobody, one user at a time.
-					for _, c := range s.live() {
-						if c != adm {
-							ev.Exclude("first request of an away user also being a notifying one (known finding away-clear-reorder)")
-							c.conn.Request(hlref.TranGetUserNameList)
-							settle(0)
-						}
-					}
 					nt = true
 				},
 				"keepAlive": func(rt *rapid.T) {
@@ -671,8 +660,9 @@ func (nopConn) Read([]byte) (int, error)    { return 0, fmt.Errorf("closed") }
 func (nopConn) Write(p []byte) (int, error) { return len(p), nil }
 func (nopConn) Close() error                { return nil }
 
-// TestC13AwayReorder decides the one class the state machine excludes: a user that was
-// marked away changes its name; the other client must end with the server's entry.
+// TestC13AwayReorder: a user that was marked away changes its name, which produces two
+// different change notices for the same user in one step; the other client must end with the
+// server's entry (the defect away-clear-reorder, fixed in jhalter/mobius; kept as a dense check).
 func TestC13AwayReorder(t *testing.T) {
 	ev := evid.New("C13", "TestC13AwayReorder")
 	defer ev.Flush()
@@ -705,9 +695,6 @@ func TestC13AwayReorder(t *testing.T) {
 			a.fold(a.conn.TakeInbox())
 			for _, u := range us {
 				if e := a.roster[u.ID]; e.name != string(u.Name) || e.flags != u.Flags || e.icon != u.Icon {
-					if ev.IsKnown("away-clear-reorder") {
-						return
-					}
 					rt.Fatalf("after an away user changed its name the watcher's folded entry for id %d is %+v, the server lists name=%q icon=%d flags=%d", u.ID, e, u.Name, u.Icon, u.Flags)
 				}
 			}
